@@ -61,6 +61,7 @@ pub struct Style {
     pub root_comment: bool,
     pub after_root: Option<&'static str>, // Misc after the root element: comment, whitespace, PI
     pub charref_attrs: bool, // attribute values spelled with character references
+    pub tag_ws: u8, // white space inside tags: 1 `</x >`, 2 `</x\n>` and `<x >` (XML 1.0 [40], [42]: `S?` before `>`)
 }
 
 fn esc(s: &str) -> String {
@@ -194,7 +195,11 @@ fn write(
         if st.ws_between && !e.opaque && e.kids.iter().any(|k| matches!(k, Node::El(_))) {
             out.push_str(&format!("\n{}", "  ".repeat(depth)));
         }
-        out.push_str(&format!("</{q}>"));
+        out.push_str(&match st.tag_ws {
+            1 => format!("</{q} >"),
+            2 => format!("</{q}\n\t>"),
+            _ => format!("</{q}>"),
+        });
     }
     if pushed {
         // keep declarations in scope for descendants only
@@ -256,6 +261,15 @@ pub fn variants(root: &El) -> Vec<(String, Style)> {
             ..Default::default()
         },
     ));
+    for k in [1u8, 2] {
+        v.push((
+            format!("tag-ws{k}@*"),
+            Style {
+                tag_ws: k,
+                ..Default::default()
+            },
+        ));
+    }
     v.push((
         "attr-order@*".into(),
         Style {
